@@ -1,7 +1,7 @@
 """Fail-closed translator: the scalar / vector-of-scalars parameter and step-size code of deap/cma.py
 class Strategy -> Gallina (tie (T) of property C13, DESIGN.md 2.3).
 
-The working-tree source is parsed with `ast`; five units are regenerated, each refusable on its own
+The working-tree source is parsed with `ast`; six units are regenerated, each refusable on its own
 (a refused unit is emitted as an alias of the hand model with a `(* REFUSED *)` comment, so that
 coq/Proofs/C13_gen_equiv.v always builds, and stays tied by the correspondence only):
 
@@ -9,6 +9,7 @@ coq/Proofs/C13_gen_equiv.v always builds, and stays tied by the correspondence o
   hsig             the statement of Strategy.update binding `hsig`        -> gen_hsig Nm P st ps
   sigma            the statement of Strategy.update storing `self.sigma`  -> gen_sigma Nm P st ps
   count            the statement of Strategy.update storing `self.update_count` -> gen_count Nm P st ps
+  chiN             the statement of Strategy.__init__ storing `self.chiN` -> gen_chiN Nm dim
   default_lambda   the default of `self.lambda_` in Strategy.__init__      -> gen_default_lambda dim (float instance)
 
 The matrix code of `update` (numpy.dot / outer / eigh, the paths, C) is NOT translated: its statements are
@@ -27,7 +28,7 @@ Grammar (everything else raises Refuse; nothing is guessed)
                opaque; one containing `return` before a fragment refuses the fragment); a call `self.m(...)`
                or `f(self)` makes every attribute opaque.
   expressions  int / float literals (see float_lit), names of translated locals, self.<attr> reads,
-               + - * / on scalars (an int operand is injected with n_of_nat; int + int and int * int stay in nat),
+               + - * / on scalars (an int operand is injected with n_of_nat; int + int, int * int, int // int stay in nat),
                scalar - array, array / scalar, array ** k, x ** k (k int literal) and x ** e with e built from
                integral float literals, int attributes, + and * (repeated multiplication, as the hand model),
                one comparison (< > <= >= ==), conditional expressions, sqrt log exp (math), numpy.log numpy.sqrt
@@ -79,15 +80,16 @@ UP_PARAMS = {"dim": ("p_dim", N), "lambda_": ("p_lambda", N), "mu": ("p_mu", N),
 UP_STATE = {"centroid": ("s_centroid", V), "sigma": ("s_sigma", T), "pc": ("s_pc", V), "ps": ("s_ps", V),
             "update_count": ("s_count", N)}
 UP_NEW_INPUT = {"ps": Val("ps", V)}      # self.ps after its (single) untranslated assignment
-ORDER = ["computeParams", "hsig", "sigma", "count", "default_lambda"]
+ORDER = ["computeParams", "hsig", "sigma", "count", "chiN", "default_lambda"]
 NAMES = {"computeParams": "Strategy.computeParams", "hsig": "Strategy.update: hsig",
          "sigma": "Strategy.update: self.sigma", "count": "Strategy.update: self.update_count",
-         "default_lambda": "Strategy.__init__: default lambda_"}
+         "chiN": "Strategy.__init__: self.chiN", "default_lambda": "Strategy.__init__: default lambda_"}
 HEADS = {
     "computeParams": "Definition gen_computeParams {T : Type} (Nm : Num T) (dim lambda_ : nat) (chiN : T) (k : @kargs T) : @params T :=",
     "hsig": "Definition gen_hsig {T : Type} (Nm : Num T) (P : @params T) (st : @state T) (ps : list T) : T :=",
     "sigma": "Definition gen_sigma {T : Type} (Nm : Num T) (P : @params T) (st : @state T) (ps : list T) : T :=",
     "count": "Definition gen_count {T : Type} (Nm : Num T) (P : @params T) (st : @state T) (ps : list T) : nat :=",
+    "chiN": "Definition gen_chiN {T : Type} (Nm : Num T) (dim : nat) : T :=",
     "default_lambda": "Definition gen_default_lambda (dim : nat) : nat :=",
 }
 PLACEHOLDER = {
@@ -95,6 +97,7 @@ PLACEHOLDER = {
     "hsig": "hsig_of Nm P st ps",
     "sigma": "m_sigma_of Nm P st ps",
     "count": "S (s_count st)",
+    "chiN": "chiN_of Nm dim",
     "default_lambda": "default_lambda dim",
 }
 
@@ -213,6 +216,8 @@ class Ex(object):
             e = self.natmode(node.right)
             return Val("(npow %s %s %s)" % (self.nm, self.toT(a, node.left), e), T)
         a, b = self.expr(node.left), self.expr(node.right)
+        if isinstance(op, ast.FloorDiv) and a.kind in (N, I) and b.kind in (N, I):
+            return Val("(Nat.div %s %s)" % (self.toN(a, node), self.toN(b, node)), N)
         if type(op) not in (ast.Add, ast.Sub, ast.Mult, ast.Div):
             refuse(node, "binary operator outside the grammar")
         if a.kind in (N, I) and b.kind in (N, I):
@@ -769,26 +774,50 @@ def tr_update(fdef, source, imports, want):
     return {u: out[u] for u in want}
 
 
-# ---- __init__: default lambda_ -----------------------------------------------------------------------
-def tr_default_lambda(fdef, source, imports):
+# ---- __init__: chiN and the default lambda_ ----------------------------------------------------------
+def init_statement(fdef, attr_name):
+    """the single top-level statement of __init__ storing self.<attr_name>, after self.dim = len(self.centroid)"""
     found = []
     dim_stores = []
     for s in fdef.body:
         for n in ast.walk(s):
             if isinstance(n, ast.Attribute) and isinstance(n.ctx, ast.Store) and self_attr(n) == "dim":
                 dim_stores.append(s)
-            if isinstance(n, ast.Attribute) and isinstance(n.ctx, ast.Store) and self_attr(n) == "lambda_":
+            if isinstance(n, ast.Attribute) and isinstance(n.ctx, ast.Store) and self_attr(n) == attr_name:
                 found.append(s)
-    if len(found) != 1 or not isinstance(found[0], ast.Assign) or len(found[0].targets) != 1:
-        refuse(fdef, "self.lambda_ is not assigned by exactly one top-level statement of __init__")
+    if len(found) != 1 or not isinstance(found[0], ast.Assign) or len(found[0].targets) != 1 \
+            or self_attr(found[0].targets[0]) != attr_name:
+        refuse(fdef, "self.%s is not assigned by exactly one top-level statement of __init__" % attr_name)
     s = found[0]
     if len(dim_stores) != 1 or dim_stores[0].lineno >= s.lineno:
-        refuse(s, "self.dim is not assigned exactly once before self.lambda_")
+        refuse(s, "self.dim is not assigned exactly once before self.%s" % attr_name)
     d = dim_stores[0]
-    ok = (isinstance(d, ast.Assign) and isinstance(d.value, ast.Call) and isinstance(d.value.func, ast.Name)
-          and d.value.func.id == "len" and len(d.value.args) == 1 and self_attr(d.value.args[0]) == "centroid")
+    ok = (isinstance(d, ast.Assign) and len(d.targets) == 1 and self_attr(d.targets[0]) == "dim"
+          and isinstance(d.value, ast.Call) and isinstance(d.value.func, ast.Name)
+          and d.value.func.id == "len" and len(d.value.args) == 1 and self_attr(d.value.args[0]) == "centroid"
+          and not d.value.keywords)
     if not ok:
         refuse(d, "self.dim is not len(self.centroid)")
+    for x in fdef.body:
+        if x.lineno < s.lineno and any(isinstance(n, ast.Return) for n in ast.walk(x)):
+            refuse(x, "a return before self.%s in __init__" % attr_name)
+    return s
+
+
+def tr_chiN(fdef, source, imports):
+    s = init_statement(fdef, "chiN")
+
+    def attr(name, node):
+        if name == "dim":
+            return Val("dim", N)
+        refuse(node, "read of self.%s in self.chiN" % name)
+    ex = Ex(source, imports, attr)
+    v = ex.expr(s.value)
+    return "  " + ex.toT(v, s)
+
+
+def tr_default_lambda(fdef, source, imports):
+    s = init_statement(fdef, "lambda_")
     c = s.value
     kw = fdef.args.kwarg.arg if fdef.args.kwarg else None
     ok = (isinstance(c, ast.Call) and isinstance(c.func, ast.Attribute) and c.func.attr == "get" and not c.keywords
@@ -912,6 +941,7 @@ def translate_source(source, forced=(), origin="deap/cma.py"):
                     raise up[u]
                 return up[u]
             guarded(u, fn)
+        guarded("chiN", lambda: tr_chiN(method("__init__"), source, imports))
         guarded("default_lambda", lambda: tr_default_lambda(method("__init__"), source, imports))
     parts = [HEADER % origin]
     for u in ORDER:
